@@ -304,8 +304,16 @@ struct WkdRun {
             // the Go wrapper reallocates the slot array to the parent's count before the call
             KeyM& kk = keys[ki];
             // (the list the key was derived with may have carried the omit-all switch; it says nothing about the target and changes nothing here)
+            // a list and the one it is adjusted to are often a copy of one another with single entries edited: half of the time a hidden entry
+            // carries, in its meaningless id field, the value the other list gives that slot (only the flag was flipped)
+            std::vector<MAttr> fromL2 = kk.ndlist;
+            if ((((op.arg(0) >> 4) + (int64_t) b) & 1) == 0) {
+                bool any = false;
+                for (auto& t2 : to) for (auto& f2 : fromL2) if (t2.idx == f2.idx && t2.omit != f2.omit) { if (t2.omit) t2.id = f2.id; else f2.id = t2.id; any = true; }
+                if (any) env.count("fault:hidden_entry_keeps_the_value_of_the_copied_entry");
+            }
             { bool from_flag = ((op.arg(0) >> 1) + (int64_t) b) % 3 == 0; if (from_flag) env.count("fault:adjust_from_list_carries_omit_all_switch");
-              JAttrs jf(kk.ndlist, from_flag), jt(to, false); if (jf.share_array_with(jt) || jt.share_array_with(jf)) env.count("fault:from_and_to_lists_are_views_of_one_array");
+              JAttrs jf(fromL2, from_flag), jt(to, false); if (jf.share_array_with(jt) || jt.share_array_with(jf)) env.count("fault:from_and_to_lists_are_views_of_one_array");
               bool self = inplace && b == 1 && kk.ndlist.empty(); if (self) env.count("fault:adjust_in_place_key_is_its_own_parent");
               call_begin(1); R.jv_wk_adjust_nd(view, kk.sk, self ? kk.sk : keys[pi].sk, &jf.l, &jt.l); expect_no_draws("adjust_nondelegable"); }
             std::vector<Slot> before = kk.pat; std::vector<MAttr> fromL = kk.ndlist;
